@@ -40,7 +40,13 @@ TRUSTED = ["fresh-interpreter references: a server process that only imported th
            "the package's own description parser (_parse_init_str) and SGR element maker (_make_seq_element) feed the "
            "protocol (their correctness is C14 / C09)",
            "CPython 3.12 pymalloc behaviour is used only to provoke address reuse, never for a verdict"]
-ASSUMPTIONS = ["content has no ESC character (hypothesis of C10.strip_eq / nocolor_no_esc; generators never emit one)",
+ASSUMPTIONS = ["an operation of the model that raises leaves the state as it was (`step`), whereas a real rendering that raises "
+               "midway may already have registered palette classes in the configuration; no generated history makes a "
+               "rendering raise on the unchanged tree (any `err` reply is an oracle failure `render-raises`), so the partial "
+               "effects of failing renderings are outside the theorems and outside the tie",
+               "strip_eq is stated with C09's model of strip_colors (Sgr.strip) over the character class generated from the "
+               "pattern in ak/color.py; the driver executes it on every coloured whole text (mode c)",
+               "content has no ESC character (hypothesis of C10.strip_eq / nocolor_no_esc; generators never emit one)",
                "C10.history_free for coloured renderings: every description of the configuration was resolved at creation "
                "(`closed`) and no accessor used waits for another palette class (`tagStable`: false only for number / "
                "constant cells in table titles, which use TitlePalette with RecordPalette's ids; counted in the evidence "
@@ -49,9 +55,7 @@ ASSUMPTIONS = ["content has no ESC character (hypothesis of C10.strip_eq / nocol
                "circular descriptions that only appear when a palette class registers its defaults (e.g. {'WARN': "
                "'TABLE.WARN'}: every table rendering raises AssertionError) are outside the model (reply OUT-OF-FUEL) and "
                "are not generated"]
-THEOREMS = ["C10.cfg_ok", "C10.key_by_object", "C10.driver_alloc_valid", "C10.reachable_inv", "C10.layout_indep",
-            "C10.history_free", "C10.history_free_steady", "C10.same_description_same_output", "C10.nocolor_no_esc", "C10.strip_eq",
-            "C10.lines_eq_whole", "C10.lazy_lines_history_free", "C10.lazy_whole_history_free", "C10.gp_synced"]
+THEOREMS = ["C10.cfg_ok", "C10.key_by_object", "C10.driver_alloc_valid", "C10.reachable_inv", "C10.layout_indep", "C10.history_free", "C10.history_free_steady", "C10.same_description_same_output", "C10.nocolor_no_esc", "C10.strip_pattern_ok", "C10.strip_eq", "C10.lazy_lines_history_free", "C10.lazy_whole_history_free", "C10.lines_eq_whole", "C10.same_colors_same_output", "C10.registration_keeps_colors", "C10.gp_synced"]
 
 ESC = "\x1b"
 
@@ -185,6 +189,7 @@ def translate(repo):
     classes = _classes()
     lines = ["-- GENERATED by harness/c10.py:translate from /repo/ak/{color,ppobj,ghist,hdoc}.py -- do not edit",
              "import AkVerif.Model.PaletteState",
+             "import AkVerif.Model.Sgr",
              "namespace Gen.C10", "open PaletteState", ""]
     builtin = ColorsConfig._flatten_dict(ColorsConfig.BUILT_IN_CONFIG)
     lines.append("def dfltId : SyntId := %s" % _lean_str(ColorsConfig.DFLT_SYNTAX_ID))
@@ -212,6 +217,13 @@ def translate(repo):
             ", ".join(str(_cid(p)) for p in parents), dfl, loc))
     lines.append(",\n".join(rows))
     lines.append("]")
+    # the pattern of CHText.strip_colors, read the way C09's translator reads it (\\d = Unicode decimal digits)
+    from harness import c09
+    lits, ranges, fin = c09._strip_pattern(ast.parse(open(os.path.join(repo, "ak", "color.py")).read()))
+    lines.append("def stripClass : Sgr.CharClass where")
+    lines.append("  lits := [%s]" % ", ".join("Char.ofNat %d" % c for c in lits))
+    lines.append("  ranges := [%s]" % ", ".join("(%d, %d)" % (a, b) for a, b in ranges))
+    lines.append("def stripFinal : Char := Char.ofNat %d" % fin)
     lines.append("def globalPaletteClass : ClassId := %d" % [n for n, _ in classes].index("GlobalPalette"))
     lines.append("/-- `cache_key = field_palette` (true) or `id(field_palette)` (false) in PPEnumFieldType -/")
     lines.append("def enumKeyIsObject : Bool := %s" % ("true" if _enum_key_mode(repo) == "object" else "false"))
@@ -401,7 +413,9 @@ class _Obj:
         if self.kind == "rec":
             return (str(res), str(res.ch_text()))
         if mode == "c":
-            return (str(res),)
+            from ak.color import CHText
+            whole = str(res)
+            return (whole, CHText.strip_colors(whole))
         if mode == "n":
             return (str(res), res.plain_text())
         if mode in ("L", "M"):          # the whole text first, then the same result line by line
@@ -2059,7 +2073,11 @@ def tags(case, replies):
             yield "reply:" + r
 
 
-LEVEL_TEXT = ("Kernel-checked for all histories (any operations, any allocator returning unused addresses, any closed keep-set "
+LEVEL_TEXT = ("NOT proved: that the real layout (texts, widths, line breaks) does not depend on colours or history — the model "
+              "receives each object's layout as a shape obtained from the real code with tagging palettes, layout_indep and "
+              "strip_eq take the same shape for both renderings, so this clause rests on the differential run and the oracle. "
+              "The lazy_* theorems need `closed` and `tagStable` for coloured results (none for no-colour results; "
+              "lines_eq_whole needs neither). Kernel-checked for all histories (any operations, any allocator returning unused addresses, any closed keep-set "
               "of the collector) on the palette state machine whose class table is regenerated from the source on every run: "
               "layout_indep (same visible characters whatever the colours/state), nocolor_no_esc, strip_eq (strip_colors of the "
               "coloured text = no-colour text, ESC-free content), lines_eq_whole, and history_free / "
